@@ -402,7 +402,7 @@ func addOlderRevisionOpt(rt *tape.Tape, s *model.Scenario, den int, same bool) s
 // addOlderRevisionInc is addOlderRevisionOpt; with includesToo a module that
 // includes submodules may be chosen as well (the input class of open finding
 // C05-tworev-sub).
-func addOlderRevisionInc(rt *tape.Tape, s *model.Scenario, den int, same, includesToo bool) string {
+func addOlderRevisionInc(rt *tape.Tape, s *model.Scenario, den int, same, includesToo bool, keepAugments ...bool) string {
 	if !rt.Chance(1, den) {
 		return ""
 	}
@@ -421,7 +421,12 @@ func addOlderRevisionInc(rt *tape.Tape, s *model.Scenario, den int, same, includ
 	older := &model.Mod{}
 	json.Unmarshal(b, older)
 	older.Revs = []string{olderRev}
-	older.Augments = nil
+	if len(keepAugments) == 0 || !keepAugments[0] {
+		// (with keepAugments both revisions augment the same targets with the
+		// same nodes: a collision whose report must not depend on any order;
+		// only for comparisons of the library with itself)
+		older.Augments = nil
+	}
 	older.Body = append(older.Body, &model.Node{Kind: model.KLeaf, Name: "only-in-older-revision", Type: &model.Type{Ref: model.Ref{Name: "string"}}})
 	if !same {
 		if len(older.Identities) > 0 && rt.Chance(1, 2) {
